@@ -2452,4 +2452,63 @@ theorem cycle_never_called {d : Diagram} {H : Nat → Option Handler} {ext : Lis
   have := (reaches_calls (callsAfter_idx (execute_callsAfter hwf hex) hnd) ha hin).2
   omega
 
+/-! ### the pre-flight checks in the words of the property -/
+
+/-- what the pre-flight checks ask of a diagram, its handler table and the external values -/
+structure PreflightOK (d : Diagram) (H : Nat → Option Handler) (mi : MInputs) : Prop where
+  srcExists : ∀ w ∈ d.wires, (d.findMod w.srcM).isSome = true
+  uniq : d.Uniq
+  notBoth : ∀ w ∈ d.wires, hasKey w.dstP (mi w.dstM) = false
+  handlers : ∀ m ∈ d.modules, m.outputs ≠ [] → (H m.name).isSome = true
+  sources : ∀ m ∈ d.modules, ∀ pp ∈ m.inputs, d.incoming m.name pp.1 ≠ [] ∨ hasKey pp.1 (mi m.name) = true
+
+theorem preflight_iff {d : Diagram} {H : Nat → Option Handler} {mi : MInputs} :
+    preflight d H mi = none ↔ PreflightOK d H mi := by
+  constructor
+  · intro h
+    obtain ⟨h1, h2, h3, h4⟩ := preflight_none h
+    exact ⟨h1, h2, h4, fun m hm => (preflightModule_none (h3 m hm)).1,
+      fun m hm => (preflightModule_none (h3 m hm)).2⟩
+  · intro h
+    unfold preflight
+    have c1 : d.wires.any (fun w => (d.findMod w.srcM).isNone) = false := by
+      rw [List.any_eq_false]
+      intro w hw
+      have := h.srcExists w hw
+      cases hf : d.findMod w.srcM with
+      | none => simp [hf] at this
+      | some m => simp
+    have c2 : d.wires.any (fun w => decide ((d.incoming w.dstM w.dstP).length > 1)) = false := by
+      rw [List.any_eq_false]
+      intro w hw
+      have := h.uniq w hw
+      simp only [decide_eq_true_eq]; omega
+    have c3 : d.wires.any (fun w => hasKey w.dstP (mi w.dstM)) = false := by
+      rw [List.any_eq_false]
+      intro w hw
+      simp [h.notBoth w hw]
+    simp only [c1, c2, c3, Bool.false_eq_true, if_false]
+    rw [List.findSome?_eq_none_iff]
+    intro m hm
+    unfold preflightModule
+    have hh := h.handlers m hm
+    have hs := h.sources m hm
+    split
+    · rename_i hc
+      exfalso
+      simp only [Bool.and_eq_true, Bool.not_eq_true', List.isEmpty_eq_false_iff] at hc
+      have := hh hc.1
+      cases hH : H m.name with
+      | none => simp [hH] at this
+      | some x => simp [hH] at hc
+    · split
+      · rename_i hc
+        exfalso
+        simp only [List.any_eq_true, Bool.and_eq_true, Bool.not_eq_true', List.isEmpty_iff] at hc
+        obtain ⟨pp, hpp, he, hk⟩ := hc
+        rcases hs pp hpp with h1 | h1
+        · exact h1 he
+        · rw [h1] at hk; cases hk
+      · rfl
+
 end Operon.Wiring
